@@ -62,6 +62,9 @@ struct TimerModel;
 static TimerModel *g_model = nullptr;
 static void timer_callback(int id);
 
+struct Runaway
+{
+};
 static const int FUEL = 1500; // firings per exec; the largest legitimate catch-up here is < 4*60
 static const int MAXN = 4;
 
@@ -351,7 +354,7 @@ struct TimerModel : mc::Model
         if ((int)log.size() > FUEL + 10)
         {
             mc::violation("C16.exec.runaway", "more than %d callbacks in one exec(now=%lld)", FUEL, (long long)now);
-            throw mc::Abort();
+            throw Runaway(); // unwinds through timer_manager::exec
         }
         if (!in_exec || id < 0 || id >= N || !ref[id].alive)
         {
@@ -460,7 +463,7 @@ struct TimerModel : mc::Model
             {
                 mgr->exec(now);
             }
-            catch (mc::Abort &)
+            catch (Runaway &)
             {
                 in_exec = false;
                 g_lock_depth = 0;
